@@ -2803,6 +2803,10 @@ public:
 
     locks_t &get_current_locks() { return map_.get().get_current_locks(); }
 
+    void bump_resize_counter() {
+      map_.get().resize_counter_.fetch_add(1, std::memory_order_release);
+    }
+
     // A reference to the map owned by the table
     std::reference_wrapper<cuckoohash_map> map_;
     // A manager for all the locks we took on the table.
@@ -2827,6 +2831,11 @@ public:
 
       // Re-size the locks, and set the size to the stored size
       lt.maybe_resize_locks(lt.bucket_count());
+      // The bucket array (and possibly the lock array) has been replaced:
+      // advance the resize counter, as every other resize does, so that
+      // operations blocked on a lock re-validate and restart once we unlock
+      // instead of proceeding with the hashpower of the replaced table.
+      lt.bump_resize_counter();
       for (auto &lock : lt.get_current_locks()) {
         lock.elem_counter() = 0;
       }
